@@ -95,16 +95,24 @@ package pool
 //@ func (*Message) SetContentFormat(contentFormat message.MediaType)
 //@   inline
 //
-// Assumed (not yet verified) frame of the pooled ResetOptionsTo: it only touches the message.
+// The pooled ResetOptionsTo: the values are copied into the free part of the message's own value buffer
+// (grown when it is too small), which is consumed monotonically, so the bytes of no option that anybody
+// holds are written over. Callers get the frame and the result unconditionally; the body is verified under
+// the entry conditions of the `assumes` lines (the message invariant, the input sorted and of bounded
+// length, its values outside the free part of the buffer, its list not the message's own backing array),
+// which are NOT checked at the call sites and are reported as unchecked assumptions.
 //@ func (*Message) ResetOptionsTo(in message.Options)
-//@   trusted
 //@   requires r != nil
+//@   assumes msgInv(r) && sortedOpts(in) && len(in) <= 16384 && sumLens(in, len(in)) <= 281474976710656
+//@   assumes valuesDisjoint(r.valueBuffer[0 : cap(r.valueBuffer)], in) && distinctObjects(in, r.msg.Options)
 //@   modifies r.msg.Options, r.msg.Options[0 : cap(r.msg.Options)], r.valueBuffer, r.valueBuffer[0 : cap(r.valueBuffer)], r.isModified
-//@   ensures sortedOpts(r.msg.Options) && valuesClear(r.msg.Options, r.valueBuffer[0 : cap(r.valueBuffer)]) && len(r.msg.Options) == len(in)
-//@   ensures (r.msg.Options[0:0] == old(r.msg.Options[0:0]) && cap(r.msg.Options) == old(cap(r.msg.Options))) || fresh(r.msg.Options)
-//@   ensures fresh(r.valueBuffer) || (r.valueBuffer.obj == old(r.valueBuffer.obj) && r.valueBuffer.off >= old(r.valueBuffer.off) && r.valueBuffer.off + cap(r.valueBuffer) == old(r.valueBuffer.off + cap(r.valueBuffer)))
-//@   ensures len(in) > 0 ==> r.isModified
-//@   ensures len(in) == 0 ==> r.isModified == old(r.isModified)
+//@   ensures [message-invariant] sortedOpts(r.msg.Options) && valuesClear(r.msg.Options, r.valueBuffer[0 : cap(r.valueBuffer)]) && len(r.msg.Options) == len(in)
+//@   ensures [list-backing] (r.msg.Options[0:0] == old(r.msg.Options[0:0]) && cap(r.msg.Options) == old(cap(r.msg.Options))) || fresh(r.msg.Options)
+//@   ensures [buffer-consumed-monotonically] fresh(r.valueBuffer) || (r.valueBuffer.obj == old(r.valueBuffer.obj) && r.valueBuffer.off >= old(r.valueBuffer.off) && r.valueBuffer.off + cap(r.valueBuffer) == old(r.valueBuffer.off + cap(r.valueBuffer)))
+//@   ensures [modified] len(in) > 0 ==> r.isModified
+//@   ensures [unmodified-when-empty] len(in) == 0 ==> r.isModified == old(r.isModified)
+//@   ensures [ids-copied] forall j int :: {r.msg.Options[j].ID} 0 <= j && j < len(in) ==> r.msg.Options[j].ID == in[j].ID && len(r.msg.Options[j].Value) == len(in[j].Value)
+//@   ensures [input-untouched] forall k int :: {in[k].ID} 0 <= k && k < len(in) ==> bytesEqOld(in[k].Value, in[k].Value)
 
 // ---- header field accessors (used by C05/C06 contracts of the datagram connection) ----------------
 //
